@@ -438,6 +438,27 @@ func runC01(c *ctx) {
 		c.Class("nesting-chain")
 		c01Eval(c, c01Case{Source: "constructors", Msg: g.Msg(it, true)})
 	}
+	// every nesting depth up to 70 (and a few beyond), with distinct leaves before and after the nested list at every
+	// level (an encoder or decoder that keeps its own stack of open lists shows itself when that stack grows)
+	for depth := 1; depth <= c.pick(70, 140); depth++ {
+		for shape := 0; shape < 3; shape++ {
+			var it *ref.Item = &ref.Item{Kind: ref.A, Str: []byte("bottom")}
+			for i := 0; i < depth; i++ {
+				l := &ref.Item{Kind: ref.L}
+				if shape >= 1 {
+					l.Children = append(l.Children, &ref.Item{Kind: ref.U2, Slots: []ref.Slot{{Uint: uint64(i)}}})
+				}
+				l.Children = append(l.Children, it)
+				if shape == 2 {
+					l.Children = append(l.Children, &ref.Item{Kind: ref.I2, Slots: []ref.Slot{{Int: int64(-i)}}}, &ref.Item{Kind: ref.L})
+				}
+				it = l
+			}
+			g := gen.New(r, gen.Profile{})
+			c.Class("nesting-chain-with-siblings")
+			c01Eval(c, c01Case{Source: "constructors", Msg: g.Msg(it, true)})
+		}
+	}
 	// every byte value in B, every character in A
 	all := &ref.Item{Kind: ref.B}
 	for v := 0; v < 256; v++ {
@@ -449,7 +470,7 @@ func runC01(c *ctx) {
 	}
 	g := gen.New(r, gen.Profile{})
 	c01Eval(c, c01Case{Source: "constructors", Msg: g.Msg(&ref.Item{Kind: ref.L, Children: []*ref.Item{all, allA}}, true)})
-	c.Required = []string{"source/constructors", "source/template", "source/sml", "source/decoder", "source/restamped", "lists-of-empty-items", "items-at-the-size-limit", "message-longer-than-16MiB", "shape/maxlenbytes=2", "shape/maxlenbytes=3"}
+	c.Required = []string{"source/constructors", "source/template", "source/sml", "source/decoder", "source/restamped", "lists-of-empty-items", "items-at-the-size-limit", "message-longer-than-16MiB", "nesting-chain", "nesting-chain-with-siblings", "shape/maxlenbytes=2", "shape/maxlenbytes=3"}
 }
 
 func replayC01(c *ctx, raw json.RawMessage) {
